@@ -227,11 +227,12 @@ impl Check {
             wall,
             path
         );
-        if !self.machinery_errors.is_empty() {
-            return 2;
-        }
+        // violations (each with its replay file) are the verdict even if parts of the run could not
+        // be carried out on the broken tree; machinery errors alone mean the check itself is broken
         if nviol > 0 {
             1
+        } else if !self.machinery_errors.is_empty() {
+            2
         } else {
             0
         }
